@@ -15,6 +15,8 @@ func init() {
 			{"C01.overwrite-flag", ruleC01OverwriteFlag, ""},
 			{"C01.split", ruleC01Split, ""},
 			{"C01.addressing", ruleC01Addressing, ""},
+			{"C01.key-limits", ruleC16Consts, ""},
+			{"C01.scan-cursor", ruleC11Cursor, ""},
 			{"C01.kernel", ruleKernelShapes("(*pogreb.index).bucketIndex", "(*pogreb.bucket).del", "(*pogreb.slotWriter).insert", "(*pogreb.slotWriter).write", "(*pogreb.index).createOverflowBucket", "(*pogreb.bucketIterator).next", "(*pogreb.index).newBucketIterator", "(pogreb.slot).kvSize", "(*pogreb.datalog).readKey", "(*pogreb.datalog).readKeyValue"), ""},
 		},
 		Explanation: "Decides structural necessary conditions of map semantics of the hash index, for all key sets and hash layouts at once: (chain-exit) no lookup/insert/delete/scan/compaction walk of a bucket chain can end before end-of-chain, an error or a key/record match; (match-equal) a key callback reports a match only behind bytes.Equal(sought key, key stored in the log for that slot); (count, overwrite-flag) index.numKeys moves +1 exactly on insertion of a new key and -1 exactly on a removal, after the bucket write; (split) a split updates the addressing state before redistributing, publishes numBuckets after both writes, frees old overflow buckets after the walk; (addressing) every walk starts at bucketIndex(hash of the key) and Put stores the slot with that hash and the location the log append returned. NOT decided: equality with a reference map for all histories, the redistribution arithmetic itself, the hash function.",
@@ -30,6 +32,7 @@ func init() {
 			{"C06.unlink-after-durable", ruleC06Unlink, ""},
 			{"C06.errs", ruleErrs, ""},
 			{"C06.recover-syncs", ruleC06RecoverSyncs, ""},
+			{"C06.size-mirror", ruleC04SizeMirror, ""},
 		},
 		Explanation: "Under the stated power-loss model, decides three structural necessary conditions over all paths: (sync-reaches-fsync) DB.Sync, and Put/Delete in sync-after-every-write mode, cannot return success without File.Sync on the current segment, except through the test 'current segment is sealed'; OS-backed File implementations resolve Sync to (*os.File).Sync; (seal-sync) a segment is marked full only after a successful File.Sync of that same segment, so nothing is left unflushed when the log moves on; (unlink-after-durable) in compaction every path from a record copy to FileSystem.Remove passes File.Sync of the current segment. NOT decided: the contents of each power-loss image; that fsync honours its contract.",
 		Assumptions: commonAssumptions,
@@ -39,6 +42,7 @@ func init() {
 			{"C09.sync-before-close", ruleC09SyncBeforeClose, ""},
 			{"C09.commit-last", ruleCloseOrder, ""},
 			{"C09.errs", ruleErrs, ""},
+			{"C09.meta-symmetry", ruleC02MetaSymmetry, ""},
 		},
 		Explanation: "Decides, on the call-string-cloned interprocedural graph of DB.Close: (sync-before-close) every fs.File.Close of a written file that lies on a success path of DB.Close is preceded on every path by File.Sync on the same file (same access path through the call string) with no write in between; (commit-last) writeMeta, datalog.close, index.close precede LockFile.Unlock on every path, every success return passes Unlock, nothing touches the file system after Unlock, only DB.Close calls Unlock, and datalog.close skips only nil segments. NOT decided: that every power-loss image after Close reopens to the closed contents.",
 		Assumptions: commonAssumptions,
@@ -67,6 +71,10 @@ func init() {
 			{"C04.seal-after-replay", ruleC04SealAfterReplay, ""},
 			{"C04.sequence-monotonic", ruleC03SequenceMonotonic, ""},
 			{"C04.recover-syncs", ruleC06RecoverSyncs, ""},
+			{"C04.replay-meta", ruleC04ReplayMeta, ""},
+			{"C04.swap-never-sealed", ruleC05SwapNeverSealed, ""},
+			{"C04.curseg-live", ruleC15CurSegLive, ""},
+			{"C04.rollover-through-swap", ruleC04Rollover, ""},
 		},
 		Explanation: "Decides: (size-mirror) every length-changing call (Write, WriteAt, Truncate) made on the fs.File embedded in a pogreb.file assigns file.size of the same file on each success path (or is the reviewed in-place bucket rewrite / the function-local gob writer), so the in-memory append position cannot diverge from the file length after recovery truncates a torn tail; (unlock-owner) only a completed DB.Close releases the lock file, after all other steps, so an interrupted recovery is redone. NOT decided: contents along chains of crash images; idempotence of recovery as such.",
 		Assumptions: commonAssumptions,
@@ -89,6 +97,7 @@ func init() {
 			{"C07.balanced", ruleBalanced, ""},
 			{"C07.fs-readers-pure", ruleFSReadersPure, ""},
 			{"C07.scan-cursor", ruleC11Cursor, ""},
+			{"C07.count", ruleC01Count, ""},
 			{"C07.copy-inside-lock", ruleC14CopyInsideLock, ""},
 		},
 		Explanation: "Decides only the critical-section structure linearizability needs, with a path-sensitive lockset analysis on the call-string-cloned interprocedural graph of every API entry: (guarded) every read/write of index, datalog, segment-meta and file-size state and every fs.File call on a shared index/segment file reachable from an entry is made with DB.mu held in the required mode; (one-section) Put, Delete, Get, GetAppend, Has, Count, Sync and one iterator refill never release DB.mu and take it again; (balanced) every entry returns with the lockset it was entered with. NOT decided: the existence of a linearization for every history.",
@@ -137,6 +146,8 @@ func init() {
 			{"C05.balanced", ruleBalanced, ""},
 			{"C05.sequence-monotonic", ruleC03SequenceMonotonic, ""},
 			{"C05.seal-after-replay", ruleC04SealAfterReplay, ""},
+			{"C05.stop-on-error", ruleC05StopOnError, ""},
+			{"C05.replay-meta", ruleC04ReplayMeta, ""},
 		},
 		Explanation: "Decides the invariants that make per-record compaction safe under interleaved writers, over all paths: the source is sealed under the exclusive lock before it is read, the log never appends to a sealed segment and swapSegment never installs one; a record is judged live on (hash, segment, offset), copied and the slot repointed to exactly the location the copy returned, only after a successful copy, all inside sections of DB.mu held exclusively (guarded); the source disappears only after the iterator reported a clean end of segment; a segment with delete records is compacted only together with all older ones, oldest first; the compaction walk of a bucket chain cannot end early. NOT decided: equality of contents before/during/after compaction for all schedules.",
 		Assumptions: commonAssumptions,
@@ -155,6 +166,8 @@ func init() {
 			{"C03.tail-handling", ruleC08Gates, ""},
 			{"C03.size-mirror", ruleC04SizeMirror, ""},
 			{"C03.seal-after-replay", ruleC04SealAfterReplay, ""},
+			{"C03.stop-on-error", ruleC05StopOnError, ""},
+			{"C03.replay-meta", ruleC04ReplayMeta, ""},
 		},
 		Explanation: "Decides the structural crash protocol over all paths: the lock file brackets every mutation of a session (taken first in Open, released last and only by a completed Close); on the recovery branch the non-segment files are moved aside before index and log are opened, recovery replays segments in ascending sequence order, sequence ids only grow; a record reaches the log in one WriteAt of the whole encoded record; Put appends to the log before touching the index and Delete writes the delete record inside the index removal; compaction unlinks a source only after a clean end of segment, repoints a slot only after the copy was written, and drops delete records only together with all older segments. NOT decided: the contents recovered from each crash image; sector-tearing atomicity (relies on the checksum, C08).",
 		Assumptions: commonAssumptions,
@@ -189,6 +202,7 @@ func init() {
 			{"C08.compact-complete", ruleC03CompactComplete, ""},
 			{"C08.size-mirror", ruleC04SizeMirror, ""},
 			{"C08.alloc-bound", ruleC19AllocBound, ""},
+			{"C08.narrowing", ruleC16Narrowing, ""},
 		},
 		Explanation: "Decides: (layout) by abstract interpretation of slice positions (linear forms over K=len(key), V=len(value)) the record encoder and the decoder used by recovery frame records exactly as documented: keysize u16 LE @0, (type bit 31 | valuesize) u32 LE @2, key @6, value @6+K, CRC32-IEEE u32 LE @6+K+V over [0,6+K+V), total 10+K+V, type bit set/decoded exactly for delete records; (gates) a record is returned and the iterator offset advanced (by 10+K+V) only behind the checksum equality, recovery truncates at that offset, every error the segment iterator can return is one recovery compares against (or the io.ReadFull pass-through with io.EOF and io.ErrUnexpectedEOF both recognised), end-of-segment is reported only at a record boundary, and after a truncation the iterator continues with the next segment. NOT decided: replay equality against an independent decoder on all byte strings; the error-detection strength of CRC-32.",
 		Assumptions: commonAssumptions,
@@ -219,6 +233,7 @@ func init() {
 			{"C02.swap-never-sealed", ruleC05SwapNeverSealed, ""},
 			{"C02.mapping", ruleC17, ""},
 			{"C02.remove-order", ruleC15RemoveOrder, ""},
+			{"C02.count", ruleC01Count, ""},
 			{"C02.name-families", ruleC15NameFamilies, ""},
 			{"C02.sequence-monotonic", ruleC03SequenceMonotonic, ""},
 		},
